@@ -50,6 +50,7 @@ def run_coq(path, timeout=600):
 def check_cases(cases, workdir=None, shard=150, cfg=(0, 0)):
     """-> list of (case_index, first_failing_step) for disagreeing cases."""
     workdir = workdir or tempfile.mkdtemp(prefix='pvcases')
+    os.makedirs(workdir, exist_ok=True)
     bad = []
     for k in range(0, len(cases), shard):
         part = cases[k:k + shard]
